@@ -34,13 +34,13 @@ CLAIMS = {
          "Checked at every transaction and block boundary. The chain-wide total deviates by exactly 2 x uncommitted (known finding F04, not repairable without failing the existing suite); any other drift is a violation.", "5/C12", ""),
  'C14': ("deterministic simulation: integer reference model of every vesting entry applied per vest/claim/cancel/vest-now transaction (pre/post state), conservation Eden in == released + returned + scheduled, every entry's own start/length/released amount carried across cancels and governance changes of the vesting parameters, claims must not fail",
          "Per transaction on every simulated history; schedules 5..100 blocks, 1..10 concurrent vestings, claims/cancels at arbitrary heights.", "5/C14", ""),
- 'C15': ("deterministic simulation: every coinbase/burn event of every block (ledger self-checked against real supply of every denom) must be an allowed kind: vesting release of uelys by commitment, burner/gov/slashing burns of uelys, share mint/burn by amm/stablestake",
+ 'C15': ("deterministic simulation: state-based: the supply of every externally issued denom is constant across every block; event-based: every coinbase/burn event of every block (ledger self-checked against real supply of every denom) must be an allowed kind: vesting release of uelys by commitment, burner/gov/slashing burns of uelys, share mint/burn by amm/stablestake",
          "Every block of every simulated history, failed transactions and liquidations included.", "5/C15", ""),
  'C16': ("deterministic simulation: reference model map[(asset,source)][timestamp] + feeder registry derived from authorised transactions and executed gov proposals, compared with the real lookups of every known asset/denom after every block; names that are prefixes/concatenations of one another, feeder (de)activation/removal, non-feeder feeds, expiry by time and by blocks",
          "After every block of every simulated history. Exact store-key collisions of concatenated names are known finding F11.", "5/C16", ""),
- 'C18': ("deterministic simulation with fault injection: oracle outages, clock gaps/jumps (1 ms .. 40 days), restarts, adversarial/dust traffic, governance proposals moving one numeric/boolean field of any module's Params (enumerated by reflection) to an edge value that the module's own validation accepts; oracle = FinalizeBlock/Commit never errors or panics on any node",
+ 'C18': ("deterministic simulation with fault injection: oracle outages, clock gaps/jumps (1 ms .. 40 days), restarts, adversarial/dust traffic, governance proposals moving one numeric/boolean field of any module's Params (enumerated by reflection) to an edge value that the module's own validation accepts, structural governance edges (pool parameters, pool and asset listings, chain-wide constants, inflation schedules), quiet periods in which only feeders and governance act, a permanently locked account created at the burn address, a fault-free cool-down with canary requests at the end of every run (bounded-liveness evidence); oracle = FinalizeBlock/Commit never errors or panics on any node",
          "Every FinalizeBlock and Commit of every node in every run must succeed; a failure is reported with the minimised trace.", "5/C18", ""),
- 'C19': ("deterministic simulation with crash/restart injection: twin replicas fed identical blocks, restart after commit / between FinalizeBlock and Commit / by injected disk read error; thorough tier restarts the replica after every height",
+ 'C19': ("deterministic simulation with crash/restart injection: twin replicas fed identical blocks, restart after commit / between FinalizeBlock and Commit / by injected disk read error; the replica also runs CheckTx and keeper queries the reference never runs; a fresh OS process re-executes the block log from genesis and from a database dump under another TZ/GOMAXPROCS; thorough tier restarts the replica after every height",
          "App hash, tx results (code, codespace, gas, data, events) and validator updates compared after every block between a reference node and a replica that is crashed and rebuilt from its SimDB.", "5/C19", ""),
  'C10': ("deterministic simulation: at the exact moment (pre-state of each third-party close-positions transaction through the ante wrapper; committed state + new header for the begin-block sweep) the chain's own health functions and trigger prices are evaluated on a discarded cache context; a clearly non-closable position must come out unchanged; every successful open must leave health > safety factor in the final state",
          "Bots naming arbitrary (owner,id) pairs incl. all positions in one message, racing in any order, price paths hovering around liquidation, stop-loss/take-profit near the market. Multi-position messages and the begin-block sweep are mirrored with the chain's own functions on a discarded branch, each position judged when its turn comes. Successful opens and collateral top-ups are re-checked with the borrow interest accrued.", "5/C10", ""),
